@@ -2,6 +2,7 @@ package scen
 
 import (
 	"context"
+	"errors"
 	"fmt"
 	"sync"
 	"time"
@@ -116,8 +117,20 @@ func c09Root(p c09p) func() {
 		if int(accepted.Load()) >= p.producers*per {
 			vapi.Fail("C09: all %d offered batches were accepted although the store is stalled (no backpressure)", p.producers*per)
 		}
+		// a Flush caller arriving at the saturated pipeline blocks like a producer and fails with
+		// its context error too
+		var flushErr vapi.Cell[error]
+		wg.Add(1)
+		go func() {
+			defer wg.Done()
+			flushErr.Set(eng.Flush(ctx))
+		}()
+		vapi.Quiesce()
 		cancel() // blocked producers must now fail with their context error
 		wg.Wait()
+		if e, _ := flushErr.Get(); !errors.Is(e, context.Canceled) {
+			vapi.Fail("C09: Flush called on the saturated pipeline returned %v after its context was cancelled, want context.Canceled", e)
+		}
 	}
 }
 
